@@ -1,8 +1,8 @@
 """C02 — Cascade output: every parent tile is the 2x2 downsample of its children mosaic."""
 PROPERTY = "C02"
 LEVEL = "other"
-CONTRACT_MODULES = ["contracts.specfuns", "contracts.lemmas_desc", "contracts.pyramid", "contracts.image", "contracts.merge", "contracts.pyramidio", "contracts.datarange"]
-FUNCTIONS = ["toasty.merge.averaging_merger", "toasty.merge.TileMerger.walk_callback", "toasty.merge.TileMerger._get_min_max_of_children"]
+CONTRACT_MODULES = ["contracts.specfuns", "contracts.lemmas_desc", "contracts.pyramid", "contracts.image", "contracts.merge", "contracts.pyramidio", "contracts.datarange", "contracts.study", "contracts.parallel", "contracts.multitan", "contracts.toastsample"]
+FUNCTIONS = ["toasty.merge.averaging_merger", "toasty.merge.TileMerger.walk_callback", "toasty.merge.TileMerger._get_min_max_of_children", "toasty.merge.cascade_images"]
 LEMMAS = []
 SLOW = ()
 TRUSTED_BASE = ["pyvc VC generator; z3/cvc5", "numpy contracts of DESIGN.md 3.1 (reshape/nanmean/astype as encoded in pyvc/ndarray.py)"]
